@@ -150,6 +150,23 @@ type UpgradeableBeaconState interface {
 	UpgradeMaybe(ctx context.Context, spec *Spec, epc *EpochsContext) error
 }
 
+// WrappedBeaconState is implemented by states that wrap another state (such as an UpgradeableBeaconState whose
+// inner state changes its type on a fork upgrade). The inner state decides which optional interfaces,
+// like SyncCommitteeBeaconState, are available.
+type WrappedBeaconState interface {
+	BeaconState
+	UnwrapBeaconState() BeaconState
+}
+
+// asSyncCommitteeBeaconState reports whether the state, or the state it wraps, has sync committees.
+func asSyncCommitteeBeaconState(state BeaconState) (SyncCommitteeBeaconState, bool) {
+	if w, ok := state.(WrappedBeaconState); ok {
+		state = w.UnwrapBeaconState()
+	}
+	syncState, ok := state.(SyncCommitteeBeaconState)
+	return syncState, ok
+}
+
 type SyncCommitteeBeaconState interface {
 	BeaconState
 	CurrentSyncCommittee() (*SyncCommitteeView, error)
